@@ -6,8 +6,47 @@ from checks import c03, c04, c05, c06, c07, c08, c09, c10, c13, c20
 from gens import dt as G
 
 
+MODIFIERS = ['before', 'after', 'since', 'until', 'around', 'by', 'since around', 'before around', 'after around', 'starting from',
+             'starting from around', 'as early as', 'any time from', 'no later than', 'prior to']
+MOD_TARGETS = ['2pm today', '3pm', 'May 5th', 'May 5th 2019', '2012', 'next monday', 'last week', 'tomorrow', '2018-03-07', '3/7/2018 9:30am',
+               'christmas', 'noon', 'the end of the month', 'january 2019']
+EN_HOLIDAYS = ['christmas', 'christmas day', 'thanksgiving', 'new year', "new year's eve", 'easter', 'halloween', 'labor day', 'memorial day',
+               "mother's day", "father's day", 'independence day', 'valentines day', 'black friday', 'cyber monday', 'martin luther king day']
+EN_HOLIDAY_YEARS = ['', ' 2018', ' 2020', ' of 2019', ' next year', ' this year', ' last year']
+ZH_HOLIDAYS = ['除夕', '春节', '元旦', '中秋节', '端午节', '国庆节', '圣诞节', '清明节', '元宵节', '劳动节', '儿童节', '教师节', '感恩节', '情人节', '母亲节', '父亲节']
+ZH_HOLIDAY_YEARS = ['', '今年', '明年', '去年', '2018年', '18年', '后年', '2020年的']
+
+
+def modifier_expressions():
+    return st.builds(lambda m, t: ('modifier', m + ' ' + t), st.sampled_from(MODIFIERS), st.sampled_from(MOD_TARGETS))
+
+
+def holiday_expressions(culture):
+    if culture == 'zh-cn':
+        return st.builds(lambda y, h: ('holiday', y + h), st.sampled_from(ZH_HOLIDAY_YEARS), st.sampled_from(ZH_HOLIDAYS))
+    return st.builds(lambda h, y: ('holiday', h + y), st.sampled_from(EN_HOLIDAYS), st.sampled_from(EN_HOLIDAY_YEARS))
+
+
+def compound_currency_expressions():
+    def mk(i, a, b, n, m, j, c, extra):
+        pairs = c05.compound_pairs()
+        main, ms, iso, fname, fs, ratio = pairs[i % len(pairs)]
+        first = '%d %s and %d %s' % (n, ms[a % len(ms)], 1 + m % max(1, ratio - 1), fs[b % len(fs)])
+        main2, ms2, _, fname2, fs2, ratio2 = pairs[j % len(pairs)]
+        if extra == 0:
+            return ('compound-currency', first)
+        if extra == 1:      # a split group whose second member absorbs a fraction
+            return ('compound-currency', '%d %s and %d %s and %d %s' % (c, ms2[0], n, ms[a % len(ms)], 1 + m % max(1, ratio - 1), fs[b % len(fs)]))
+        return ('compound-currency', '%d %s %d and %d %s %d %s' % (n, ms[a % len(ms)], 1 + m % 99, c, ms2[0], 1 + m % max(1, ratio2 - 1), fs2[0]))
+    return st.builds(mk, st.integers(0, 500), st.integers(0, 5), st.integers(0, 5), st.integers(1, 999), st.integers(0, 998), st.integers(0, 500),
+                     st.integers(1, 99), st.integers(0, 2))
+
+
 def _en_only():
     fam = []
+    fam.append(modifier_expressions())
+    fam.append(holiday_expressions('en-us'))
+    fam.append(compound_currency_expressions())
     fam.append(c07.seconds_cases().map(lambda k: ('time', c07.time_text(k))))
     fam.append(c07.composed_cases().map(lambda k: ('datetime', c07.build(dict(k, carrier='{}'))[2])))
     fam.append(c08.cases().map(lambda k: ('relative-date', c08.build(dict(k, carrier='{}'))[2])))
@@ -39,6 +78,8 @@ def expressions(culture, small_numbers=False):
         common = [i for i, e in enumerate(units) if e[3].lower() in ('usd', 'us$', '$', 'dollars', 'euros', 'eur', '€', 'kg', 'km', 'years old', 'degrees')]
         if common:
             fam.append(st.builds(lambda i, n: unit_expr(common[i % len(common)], n), st.integers(0, 50), st.sampled_from(['int', 'dec'])))
+    if culture == 'zh-cn':
+        fam.append(holiday_expressions('zh-cn'))
     if culture == 'en-us':
         fam.extend(_en_only())
     return st.one_of(fam).map(lambda t: {'culture': culture, 'family': t[0], 'text': t[1]})
